@@ -17,11 +17,25 @@ pub fn twin_ok() {
     kani::cover!(a == 5, "selftest: reachable");
 }
 
+// Exercises every input shape the other harnesses use (scalars, byte/word arrays, char, usize, an
+// input the failing assertion does not depend on) so that the trace -> model values -> native
+// replay path is checked on each run.
 #[cfg_attr(kani, kani::proof)]
 #[cfg_attr(kani, kani::unwind(3))]
 pub fn twin_fail() {
     let x: u32 = kani::any();
+    let xs: [u8; 3] = kani::any();
+    let unused: [u16; 2] = kani::any();
+    let c: char = kani::any();
+    let n: usize = kani::any();
+    let ws: [u32; 2] = kani::any();
+    let cs: [char; 2] = kani::any();
+    kani::assume(n < 3);
     let p = bv::packed(x);
     let (a, _b) = bv::packed_get(&p);
-    assert!(a != 77, "selftest: deliberately wrong");
+    assert!(
+        !(a == 77 && xs[n] == 0x5A && c == '\u{e9}' && ws[1] == 0xDEAD && cs[1] == '\u{1F600}'),
+        "selftest: deliberately wrong"
+    );
+    let _ = unused;
 }
